@@ -420,16 +420,33 @@ class HTTP1Connection(httputil.HTTPConnection):
                 # No need to chunk the output if a Content-Length is specified.
                 and "Content-Length" not in headers
             )
+            response_has_body = (
+                self._request_start_line.method != "HEAD"
+                and start_line.code not in (204, 304)
+                and (start_line.code < 100 or start_line.code >= 200)
+            )
+            if (
+                response_has_body
+                and not self._chunking_output
+                and "Content-Length" not in headers
+            ):
+                # The body is delimited neither by chunked encoding (e.g. a
+                # streamed response to an HTTP/1.0 client) nor by a
+                # Content-Length, so the only way to end it is to close
+                # the connection.
+                self._disconnect_on_finish = True
             # If connection to a 1.1 client will be closed, inform client
             if (
                 self._request_start_line.version == "HTTP/1.1"
                 and self._disconnect_on_finish
             ):
                 headers["Connection"] = "close"
-            # If a 1.0 client asked for keep-alive, add the header.
+            # If a 1.0 client asked for keep-alive, add the header (unless we
+            # already know that the connection will be closed).
             if (
                 self._request_start_line.version == "HTTP/1.0"
                 and self._request_headers.get("Connection", "").lower() == "keep-alive"
+                and not self._disconnect_on_finish
             ):
                 headers["Connection"] = "Keep-Alive"
         if self._chunking_output:
